@@ -224,6 +224,10 @@ class FieldCodeGenerator:
                 expression = f'tuple({expression})'
                 if self._optional:
                     expression = f'None if {self._name} is None else {expression}'
+            elif isinstance(field_type, BlobType):
+                expression = f'bytes({expression})'
+                if self._optional:
+                    expression = f'None if {self._name} is None else {expression}'
         elif isinstance(field_type, StringType):
             expression = _string_literal(self._hardcoded_value)
         elif isinstance(field_type, BoolType):
